@@ -149,9 +149,11 @@ impl IdentifierParser for String {
                 s.to_string()
             };
             Pattern::StartsWith(s)
-        } else if (string.starts_with('"') && string.ends_with('"'))
-            || (string.starts_with('\'') && string.ends_with('\''))
+        } else if string.len() > 1
+            && ((string.starts_with('"') && string.ends_with('"'))
+                || (string.starts_with('\'') && string.ends_with('\'')))
         {
+            // NOTE: A lone quote is not a quoted string, it is matched literally below
             let s = if insensitive {
                 string[1..string.len() - 1].to_lowercase()
             } else {
